@@ -33,6 +33,10 @@ TRUSTED = [
     "not modelled (oracle only): eigh, _rotate, R_to_k, the Efermi accumulation of StaticCalculator, tetrahedron weights, "
     "external terms of Omega, model builders Haldane_ptb/Haldane_tbm and System_PythTB/System_TBmodels",
     "quantisation of AHC*c (topology + discretisation error) is NOT a theorem: oracle only, hence the claim is partial",
+    "'out-of-plane lattice constant' c of a 2D system (periodic=(True,True,False), in-plane vectors a1,a2 with z=0) means "
+    "cell volume / in-plane cell area = |det L| / |a1 x a2| (= |a3| when a3 is perpendicular); the oracle embeds the "
+    "models with in-plane cells of any shape and a3 of length 0.5-4 Angstrom, perpendicular or tilted, and checks "
+    "AHC_z * c = -C e^2/h plus CumDOS/DOS per cell independent of c",
     "correspondence inputs keep every energy gap either exactly 0, 2^-40 (< 1e-7/1e5) or >= 2^-12 (> 1e-7*2000)",
 ]
 RULE = ("corr: 2-6 bands, sorted dyadic energies with exact and sub-threshold degeneracies, Hermitian Gaussian-dyadic "
@@ -436,6 +440,27 @@ def sysR_Hk(s):
     return Hk
 
 
+def embed_2d(s, lattice):
+    """the same 2D tight-binding model (same reduced R vectors, matrices and reduced centres) as a hand-built System_R
+    with periodic=(True, True, False) and an arbitrary real lattice: in-plane vectors a1, a2 (z = 0, a1 x a2 along +z)
+    and a third vector a3 of any length, perpendicular or tilted"""
+    from wannierberri.system.system_R import System_R
+    from wannierberri.fourier.rvectors import Rvectors
+    lattice = np.array(lattice, dtype=float)
+    new = System_R(periodic=(True, True, False), name="embedded2d", silent=True,
+                   force_internal_terms_only=bool(s.force_internal_terms_only))
+    new.set_real_lattice(real_lattice=lattice)
+    new.num_wann = s.num_wann
+    new.spinor = False
+    red = np.array(s.wannier_centers_red)
+    new.set_wannier_centers(wannier_centers_red=red)
+    new.rvec = Rvectors(lattice=new.real_lattice, iRvec=np.array(s.rvec.iRvec), shifts_left_red=red, dim=2)
+    for key in s._XX_R:
+        new.set_R_mat(key, np.array(s.get_R_mat(key)))
+    new.do_at_end_of_init()
+    return new
+
+
 def case_chern(ctx, case):
     from ..wbsys import wb
     import wannierberri.models as M
@@ -461,6 +486,11 @@ def case_chern(ctx, case):
             s.set_R_mat("AA", AA, reset=True)
             s.force_internal_terms_only = False
         Hk = sysR_Hk(s)
+    lat = case.get("lattice")
+    if lat is not None:
+        # H(k) in reduced coordinates - hence the reference Chern number - does not depend on the embedding
+        with quiet():
+            s = embed_2d(s, lat)
     Cref, gap = fhs_chern(Hk, 1, n=case.get("nfhs", 30))
     Cint = int(round(Cref))
     # analytic phase diagram of the unperturbed model: |C| = 1 iff |delta| < 3 sqrt(3) |hop2 sin(phi)|
@@ -481,13 +511,29 @@ def case_chern(ctx, case):
         ctx.count("oracle.chern.skipped_no_global_gap")
         return
     NK = case["NK"]
+    top = float(ee.max()) + 1.0
+    Efs = np.array([ef, top])
     with quiet():
         grid = wb.Grid(s, NK=(NK, NK, 1), NKFFT=(case["NKFFT"], case["NKFFT"], 1))
-        res = wb.run(s, grid=grid, calculators={"ahc": wb.calculators.static.AHC(Efermi=np.array([ef]))},
-                     parallel=False, print_Kpoints=False, symmetrize=False)
+        res = wb.run(s, grid=grid, parallel=False, print_Kpoints=False, symmetrize=False, calculators={
+            "ahc": wb.calculators.static.AHC(Efermi=Efs), "cumdos": wb.calculators.static.CumDOS(Efermi=Efs),
+            "dos": wb.calculators.static.DOS(Efermi=np.linspace(float(ee.min()) - 0.5, top, 21))})
     d = res.results["ahc"].data[0]
-    c_m = abs(s.real_lattice[2, 2]) * 1e-10
+    L = np.array(s.real_lattice)
+    area = np.linalg.norm(np.cross(L[0], L[1]))
+    c_ang = abs(np.linalg.det(L)) / area          # out-of-plane lattice constant: cell volume / in-plane cell area
+    c_m = c_ang * 1e-10
     val = d[2] * c_m / (e ** 2 / h)
+    cum = res.results["cumdos"].data
+    if abs(cum[0] - 1) > 1e-9 or abs(cum[1] - 2) > 1e-9:
+        ctx.fail(f"CumDOS per cell of the two-band 2D model is {cum.tolist()} (expected 1 in the gap, 2 above all bands); "
+                 f"out-of-plane lattice constant {c_ang:.4f}", dict(case, cumdos=cum, lattice=L))
+    dos = res.results["dos"]
+    dsum = float(np.sum(dos.data) * (dos.Energies[0][1] - dos.Energies[0][0])) if hasattr(dos, "Energies") else None
+    if dsum is not None and abs(dsum - 2) > 0.05:
+        ctx.fail(f"DOS per cell integrates to {dsum:.4f} states for a two-band model (out-of-plane lattice constant "
+                 f"{c_ang:.4f})", dict(case, lattice=L))
+    ctx.count("oracle.chern.embedded_c!=1" if abs(c_ang - 1) > 1e-6 else "oracle.chern.c=1")
     ctx.count(f"oracle.chern.C={Cint}")
     ctx.case(signature=("chern", case["builder"], tuple(sorted(p.items())), case["perturb"], case["seed"]),
              nontrivial=True)
@@ -502,6 +548,15 @@ def case_chern(ctx, case):
 RUNNERS = {"sumk": case_sumrule_k, "ahc": case_ahc_above, "chern": case_chern, "sea": case_sea_edge}
 
 
+def gen_lattice_2d(rng):
+    """in-plane cell of any shape (a1 x a2 along +z), third vector of length 0.5-4 Angstrom, perpendicular or tilted"""
+    l1, l2 = rng.uniform(0.7, 3.0), rng.uniform(0.7, 3.0)
+    sh = rng.choice([0.5, 0.0, -0.3, rng.uniform(-0.8, 0.8)]) * l1
+    c = rng.choice([2.5, 0.5, 4.0, rng.uniform(0.5, 4.0)])
+    tilt = [0.0, 0.0] if rng.random() < 0.6 else [rng.uniform(-0.6, 0.6), rng.uniform(-0.6, 0.6)]
+    return [[l1, 0.0, 0.0], [sh, l2, 0.0], [tilt[0], tilt[1], c]]
+
+
 def gen_chern_case(rng):
     hop2 = rng.choice([0.15, 0.1, 0.2, 0.3]) * rng.choice([1, -1])
     phi = rng.choice([np.pi / 2, -np.pi / 2, np.pi / 3, -2 * np.pi / 3, 0.7, 2.2, -1.1])
@@ -510,7 +565,8 @@ def gen_chern_case(rng):
     delta = crit * rng.choice([0.0, 0.2, 0.45, -0.3]) if topo else crit * rng.choice([1.8, -2.0, 2.5]) + 0.0
     return dict(kind="chern", seed=rng.getrandbits(31), builder=rng.choice(["ptb", "tbm"]), delta=float(delta),
                 hop1=rng.choice([-1.0, 1.0, -0.8]), hop2=float(hop2), phi=float(phi),
-                perturb=rng.choice([0, 0, 0.03, 0.06]), NK=rng.choice([36, 42, 48]), NKFFT=6)
+                perturb=rng.choice([0, 0, 0.03, 0.06]), NK=rng.choice([36, 42, 48]), NKFFT=6,
+                lattice=(gen_lattice_2d(rng) if rng.random() < 0.7 else None))
 
 
 def oracle(ctx, scale):
@@ -536,6 +592,11 @@ def oracle(ctx, scale):
                           NK=36, NKFFT=6))
     cases.append(dict(kind="chern", seed=2, builder="ptb", delta=1.5, hop1=-1.0, hop2=0.15, phi=np.pi / 2, perturb=0,
                       NK=36, NKFFT=6))
+    # the default model embedded with a different vacuum thickness / in-plane cell (hexagonal cell kept, c = 2.5)
+    cases.append(dict(kind="chern", seed=3, builder="tbm", delta=0.2, hop1=-1.0, hop2=0.15, phi=np.pi / 2, perturb=0,
+                      NK=36, NKFFT=6, lattice=[[1.0, 0.0, 0.0], [0.5, np.sqrt(3) / 2, 0.0], [0.0, 0.0, 2.5]]))
+    cases.append(dict(kind="chern", seed=4, builder="ptb", delta=0.2, hop1=-1.0, hop2=0.15, phi=-np.pi / 2, perturb=0.03,
+                      NK=36, NKFFT=6, lattice=gen_lattice_2d(rng)))
     for _ in range(ctx.n(4, 40) * scale):
         cases.append(gen_chern_case(rng))
     for case in cases:
@@ -552,9 +613,9 @@ def replay(ctx, case):
         if isinstance(c, dict) and c.get("kind") in RUNNERS:
             keys = {"sumk": ("kind", "seed", "nw", "doubled"),
                     "ahc": ("kind", "seed", "nw", "doubled", "tetra", "kramers", "degen_thresh"),
-                    "chern": ("kind", "seed", "builder", "delta", "hop1", "hop2", "phi", "perturb", "NK", "NKFFT"),
+                    "chern": ("kind", "seed", "builder", "delta", "hop1", "hop2", "phi", "perturb", "NK", "NKFFT", "lattice"),
                     "sea": ("kind", "seed", "nw", "m", "delta", "doubled", "kramers", "where", "degen_thresh")}[c["kind"]]
-            cc = {k: c[k] for k in keys}
+            cc = {k: c[k] for k in keys if k in c}
             print("replaying", cc)
             RUNNERS[c["kind"]](ctx, cc)
     if not fails:
